@@ -286,6 +286,9 @@ func runC08(p *Program, r *Result) {
 		r.Check(ok, se.String(), "wrap", "", "everything but io.EOF becomes &Error{err}", "setErr does not wrap every non-EOF error in *armor.Error")
 	}
 
+	// a failed de-armoring reader hands out nothing afterwards
+	checkNoPendingDataOnError(p, r, rd, 0)
+
 	// ---- R08.5
 	r.Rule("R08.5", "the clean end is produced only behind the footer line", 2)
 	for _, c := range callsIn(rd) {
